@@ -354,7 +354,7 @@ jcoHash(JavaCode c)
 	if (jcoIsImport(c))
 		return strHash(jcoImportId(c)) + strHash(jcoImportPkg(c));
 	if (jcoIsToken(c))
-		return symHash(jcoToken(c));
+		return strHash(symString(jcoToken(c)));
 	if (jcoIsImport(c))
 		return hashCombine(strHash(jcoImportPkg(c)), strHash(jcoImportId(c)));
 	if (jcoIsLiteral(c))
